@@ -8,7 +8,7 @@ import threading
 import time
 
 from .. import common, gen, probe
-from ..sched import LateHandles, Sched
+from ..sched import LateHandles, Sched, store_gates
 
 PROP = 'C15'
 LEVEL = 'exploration'
@@ -55,6 +55,8 @@ def schedule(dc, sc, res, rng, label, kind):
     res.count('lock_keys_falsy' if not lock_key else 'lock_keys_other')
     sch = Sched(rng, clock, strategy=rng.choice(['random', 'random', 'preempt']), max_steps=12000,
                 preempt_points={rng.randrange(0, 300) for _ in range(4)})
+    if store_gates(sch, rng, dc):
+        res.count('schedules_with_attribute_store_gates')
     # failpoints: a contender that is still waiting to get in (somebody else is inside) fails with an exception at one of
     # its gates; it must simply not get in - the holder's exclusion is not its to give away
     inject = kind == 'barrier' and rng.random() < 0.6
